@@ -190,7 +190,9 @@ Pipe == [duty |-> duty, pc |-> pc, acct |-> acct, randao |-> randao, graffiti |-
          auction |-> auction, preq |-> preq, prop |-> prop, sreq |-> sreq, sig |-> sig, calls |-> calls, sent |-> sent,
          fulls |-> fulls, cancelled |-> cancelled, submitted |-> submitted, subout |-> subout]
 
-\* a handle that is over keeps nothing but its duty
+NoDuty == [slot |-> -1, v |-> -1]
+
+\* a handle that is over keeps nothing but its duty (and that only while it is the newest handle)
 OverPipe(d) == [duty |-> d, pc |-> "done", acct |-> NoAcct, randao |-> NoRandao, graffiti |-> "none", nodeclient |-> "none",
                 auction |-> NoAuction, preq |-> NoPreq, prop |-> NoProp, sreq |-> NoSreq, sig |-> 0,
                 calls |-> [r \in Relays |-> 0], sent |-> {}, fulls |-> {}, cancelled |-> FALSE, submitted |-> NoSub,
@@ -199,7 +201,7 @@ OverPipe(d) == [duty |-> d, pc |-> "done", acct |-> NoAcct, randao |-> NoRandao,
 \* Propose has returned ("done") / the duty was dropped before it was proposed ("dropped")
 OverPcs == {"done", "dropped"}
 
-ParkCur == IF pc \in OverPcs THEN OverPipe(duty) ELSE Pipe
+ParkCur == IF pc \in OverPcs THEN OverPipe(IF cur = k THEN duty ELSE NoDuty) ELSE Pipe
 
 Load(p) ==
     /\ duty' = p.duty /\ pc' = p.pc /\ acct' = p.acct /\ randao' = p.randao /\ graffiti' = p.graffiti
@@ -374,7 +376,10 @@ NewDuty(slot, v) ==
     /\ Cardinality(InFlight) < MaxInFlight
     /\ k' = k + 1
     /\ cur' = k + 1
-    /\ parked' = [parked EXCEPT ![cur] = ParkCur]
+    \* (the duty of a handle that is over is needed for LastSlot only while it is the newest: forgotten now)
+    /\ parked' = [h \in 1..NDuties |->
+                    IF h = cur THEN (IF pc \in OverPcs THEN OverPipe(NoDuty) ELSE Pipe)
+                    ELSE IF parked[h] # Nil /\ parked[h].pc = "done" THEN OverPipe(NoDuty) ELSE parked[h]]
     /\ duty' = [slot |-> slot, v |-> v]
     /\ ResetPipeline
     /\ UNCHANGED <<past, cfg>>
